@@ -9,6 +9,8 @@ contains every ordered pair of events.
 """
 import copy as pycopy
 
+import itertools
+
 import numpy as np
 
 from mcx import bfs
@@ -17,10 +19,11 @@ from mcx.core import Check
 from mcx.enum import de_bruijn_linear
 
 # three residues; the last two carry the SAME name (adjacent residues told apart by their number only)
-ATOMS = [('C1', 'RA', 1), ('C2', 'RA', 1), ('N1', 'RB', 2), ('N2', 'RB', 2), ('N3', 'RB', 3)]
-EDGES = [(0, 1), (1, 2), (2, 3), (2, 4)]
-RES_OF = [0, 0, 1, 1, 2]
-N = 5
+# (the middle residue has exactly three atoms: a (3, 3) coordinate array)
+ATOMS = [('C1', 'RA', 1), ('C2', 'RA', 1), ('N1', 'RB', 2), ('N2', 'RB', 2), ('N3', 'RB', 2), ('N4', 'RB', 3)]
+EDGES = [(0, 1), (1, 2), (2, 3), (2, 4), (4, 5)]
+RES_OF = [0, 0, 1, 1, 1, 2]
+N = 6
 
 
 def _dec(a, d):
@@ -33,6 +36,35 @@ def tables(seed):
     vel = _dec(generic_points(N, seed, tag=19) * 0.3, 4)
     vel[3] = 0.0                       # an atom at rest: a velocity of exactly zero is a velocity, not a missing one
     rot = generic_rotations(seed)[0]
+    # atom 0 is nudged on the 0.001 nm grid of the file (a few steps) so that the rotation of the whole molecule about
+    # its centre puts its x coordinate 5e-5 .. 4e-4 nm from the plane x = 0: a coordinate that PRINTS as 0.000 and is not 0
+    best = None
+    for a, b, c in itertools.product(range(-6, 7), repeat=3):
+        q = pos.copy()
+        q[0] = q[0] + np.array([a, b, c]) * 1e-3
+        q = _dec(q, 3)
+        ctr = q.mean(axis=0)
+        x0 = float(((q - ctr) @ rot.T + ctr)[0, 0])
+        far = float(np.linalg.norm(q[0] - pos[0]))
+        if 5e-5 < abs(x0) < 4e-4 and (best is None or far < best[0]):
+            best = (far, q)
+    if best is None:
+        # shift the whole molecule along x first so that the plane is within reach of the nudge
+        ctr = pos.mean(axis=0)
+        x0 = float(((pos - ctr) @ rot.T + ctr)[0, 0])
+        pos = _dec(pos - np.array([round(x0, 3), 0.0, 0.0]), 3)
+        for a, b, c in itertools.product(range(-6, 7), repeat=3):
+            q = pos.copy()
+            q[0] = q[0] + np.array([a, b, c]) * 1e-3
+            q = _dec(q, 3)
+            ctr = q.mean(axis=0)
+            x0 = float(((q - ctr) @ rot.T + ctr)[0, 0])
+            far = float(np.linalg.norm(q[0] - pos[0]))
+            if 5e-5 < abs(x0) < 4e-4 and (best is None or far < best[0]):
+                best = (far, q)
+    if best is None:
+        raise RuntimeError('tables: no grid position puts a rotated coordinate next to a coordinate plane')
+    pos = best[1]
     return {
         'pos': pos, 'vel': vel, 'rot': rot,
         'd': np.array([0.25, -0.5, 0.125]), 'p': np.array([1.5, -0.75, 2.25]),
@@ -228,8 +260,8 @@ class C18(Check):
         elif kind == 'residue':
             st.okind = 'residue'
             st.orig = st.syst.system_gro[1]
-            st.m_orig = full.sub([2, 3])
-            st.res_of = [0, 0]
+            st.m_orig = full.sub([2, 3, 4])
+            st.res_of = [0, 0, 0]
         else:
             st.okind = 'atom'
             st.orig = st.syst.system_gro[1][1]
